@@ -405,7 +405,9 @@ def check(ctx):
                        sig="dep-%s:%s" % (sub.prop, ",".join(sorted({o.rule for o in bad}))))
             raise
         bad = [o for o in sub.obs if not o.ok]
-        ctx.ob("R07.4", "%s:dependency" % sub.prop, not bad and not sub.broken and not sub.floor_failures, found=["%s %s" % (o.rule, o.construct) for o in bad][:4] or "all obligations discharged",
+        if not bad and (sub.broken or sub.floor_failures):        # the dependency could not be decided: neither can this obligation (not a violation)
+            raise AnalysisError("dependency %s of C07 could not be analysed: %s" % (sub.prop, sub.broken or sub.floor_failures[0]))
+        ctx.ob("R07.4", "%s:dependency" % sub.prop, not bad, found=["%s %s" % (o.rule, o.construct) for o in bad][:4] or "all obligations discharged",
                required="every step of snake removal is taken by " + what, mod=RW, node=top, sig="dep-%s:%s" % (sub.prop, ",".join(sorted({o.rule for o in bad}))))
     ctx.floor("R07.1", 8)
     ctx.floor("R07.2", 8)
